@@ -46,6 +46,10 @@ func runC17(e *netpoll.Env) {
 		simrt.GoNamed(fmt.Sprintf("adder%d", a), false, func() {
 			for b := 0; b < bursts; b++ {
 				n := 1 + e.Intn(3)
+				if e.Chance(1, 8) {
+					// a burst larger than anything a shard has room for at first
+					n = e.Pick(33, 64, 65, 66, 100, 130)
+				}
 				var gts []mux.WriterGetter
 				var mine []*c17Getter
 				for k := 0; k < n; k++ {
